@@ -5,7 +5,7 @@ bandit with the same configuration *and seed* and the old bandit's current arm l
 from the same random-stream position (all generator objects grafted, aliasing preserved); a seeded
 continuation is then run on both and the full output streams are compared bit-for-bit, plus cold_arms.
 
-As built: Extra scenario: the caller re-uses its training arrays (overwrites them in place with D, same shape) and calls fit again; prior histories often end with add_arm + warm_start; D omits one or two arms in half of the cases; the feature count may change across fit(D) in both directions (1 <-> k); queries arrive in the history's habitual container (Series, DataFrame, narrow ints, ...). An empty D (for the policies that accept one) in 1/8 of those cases.
+As built: Extra scenario: the caller re-uses its training arrays (overwrites them in place with D, same shape) and calls fit again; prior histories often end with add_arm + warm_start; D omits one or two arms in half of the cases; the feature count may change across fit(D) in both directions (1 <-> k); queries arrive in the history's habitual container (Series, DataFrame, narrow ints, ...). An empty D (for the policies that accept one) in 1/8 of those cases. The re-used caller buffer may be an int64 / int16 / uint8 / float32 array.
 """
 from mon import env  # noqa: F401
 import copy
